@@ -194,6 +194,7 @@ func (t Table) addRoute(d *RouteDef) error {
 
 func (t Table) weighRoute(d *RouteDef) error {
 	host, path := hostpath(d.Src)
+	host = strings.ToLower(host) // hosts are stored lower-cased by addRoute
 
 	if d.Src == "" {
 		return errInvalidPrefix
@@ -237,7 +238,8 @@ func (t Table) delRoute(d *RouteDef) error {
 		}
 
 	case d.Dst == "":
-		r := t.route(hostpath(d.Src))
+		host, path := hostpath(d.Src)
+		r := t.route(strings.ToLower(host), path) // hosts are stored lower-cased by addRoute
 		if r == nil {
 			return nil
 		}
@@ -251,7 +253,8 @@ func (t Table) delRoute(d *RouteDef) error {
 			return fmt.Errorf("route: invalid target. %s", err)
 		}
 
-		r := t.route(hostpath(d.Src))
+		host, path := hostpath(d.Src)
+		r := t.route(strings.ToLower(host), path) // hosts are stored lower-cased by addRoute
 		if r == nil {
 			return nil
 		}
